@@ -799,7 +799,7 @@ impl<'a> Ctx<'a> {
             kinds.push("mnest");
         }
         if self.f.dyn_slots {
-            kinds.extend(["dyn", "dyn", "dynnk", "dynt", "dynn"]);
+            kinds.extend(["dyn", "dyn", "dynnk", "dynt", "dynn", "dynself", "dynself"]);
         }
         let kind = *self.r.pick(&kinds);
         if !self.used_comps.iter().any(|c| c == kind) {
@@ -877,6 +877,38 @@ impl<'a> Ctx<'a> {
                 let (e, ok) = self.model_expr();
                 attrs.push(Attr { name: if ok { "model:val".into() } else { "model:nval".into() }, val: AttrVal::Bind(e) });
                 Node::El { tag: "mchild".into(), attrs, children: vec![] }
+            }
+            "dynself" => {
+                // dynamic-slots child whose slot values come from its OWN state
+                attrs.push(Attr { name: "p".into(), val: AttrVal::Bind(self.top_expr()) });
+                self.scope.push(ScopeVar { name: "sv".into(), kind: Kind::Record, assignable: false, no_path: true });
+                self.scope.push(ScopeVar { name: "si".into(), kind: Kind::Index, assignable: false, no_path: false });
+                let mut inner = vec![Node::Text(self.text_parts())];
+                inner.push(Node::El { tag: "text".into(), attrs: vec![], children: vec![Node::Text(vec![TextPart::Bind(member(id("sv"), "v"))])] });
+                if self.r.chance(0.6) {
+                    // a loop over a slot value
+                    let key = if self.r.chance(0.5) { Some("k".to_string()) } else { None };
+                    let d = self.scope.len();
+                    let (it, ix) = (format!("it{}", d), format!("ix{}", d));
+                    self.scope.push(ScopeVar { name: it.clone(), kind: Kind::SubRecord, assignable: false, no_path: true });
+                    self.scope.push(ScopeVar { name: ix.clone(), kind: Kind::Index, assignable: false, no_path: false });
+                    let body = vec![Node::Text(self.text_parts())];
+                    self.scope.pop();
+                    self.scope.pop();
+                    inner.push(Node::For { list: id("sl"), key, item: Some(it), index: Some(ix), children: body, on: if self.r.chance(0.5) { Some("text".into()) } else { None } });
+                }
+                if self.f.templates && self.r.chance(0.4) {
+                    // a template fed with a slot value
+                    inner.push(Node::TemplateIs { target: AttrVal::Static("t1".into()), data: Some(Expr::Obj(vec![ObjItem::Named("q".into(), member(id("sv"), "v")), ObjItem::Named("y".into(), id("sv"))])) });
+                }
+                self.scope.pop();
+                self.scope.pop();
+                let content = Node::El {
+                    tag: "view".into(),
+                    attrs: vec![Attr { name: "slot:sv".into(), val: AttrVal::None }, Attr { name: "slot:si".into(), val: AttrVal::None }, Attr { name: "slot:sl".into(), val: AttrVal::None }],
+                    children: inner,
+                };
+                Node::El { tag: "dynself".into(), attrs, children: vec![content] }
             }
             "dynn" => {
                 // dynamic-slots child with named slots: the `slot` attribute of host content
@@ -1046,9 +1078,9 @@ fn seg_i(r: &mut Rng) -> Value {
 fn gen_op(r: &mut Rng, vg: &mut ValGen, f: &Features, safe_splice: bool, prop: Prop) -> Vec<Value> {
     let splice = if safe_splice { "splice_safe" } else { "splice" };
     let weights: [u32; 22] = match prop {
-        Prop::C07 => [40, 6, 6, 4, 3, 3, 4, 2, 3, 2, 2, 2, 2, 2, 3, 1, 2, 0, 2, 1, 2, 1],
-        Prop::C11 => [8, 6, 6, 6, 3, 3, 8, 3, 6, 4, 3, 2, 2, 2, 3, 2, 14, 0, 2, 1, 2, 1],
-        _ => [10, 8, 8, 7, 4, 4, 9, 4, 6, 4, 3, 3, 3, 3, 4, 3, 5, 0, 3, 2, 3, 1],
+        Prop::C07 => [40, 6, 6, 4, 3, 3, 4, 2, 3, 2, 2, 2, 2, 2, 3, 1, 2, 2, 2, 1, 2, 1],
+        Prop::C11 => [8, 6, 6, 6, 3, 3, 8, 3, 6, 4, 3, 2, 2, 2, 3, 2, 14, 1, 2, 1, 2, 1],
+        _ => [10, 8, 8, 7, 4, 4, 9, 4, 6, 4, 3, 3, 3, 3, 4, 3, 5, 5, 3, 2, 3, 1],
     };
     let k = r.weighted(&weights);
     let op = match k {
@@ -1108,7 +1140,23 @@ fn gen_op(r: &mut Rng, vg: &mut ValGen, f: &Features, safe_splice: bool, prop: P
             }
         }
         16 => json!(["model", r.below(8), if r.chance(0.8) { vg.uniq_str() } else { vg.scalar(r) }]),
-        17 => json!(["child_set", r.below(4), *r.pick(&["val", "val", "p"]), vg.uniq_str()]),
+        17 => {
+            // the child `dynself` changes its own state (applied to every instance; skipped when
+            // the world has none): slot values change without any update of the host
+            match r.below(5) {
+                0 => json!(["child_state", "dynself", ["own", seg_i(r), "v"], vg.scalar(r)]),
+                1 => {
+                    let ins: Vec<Value> = (0..r.below(3)).map(|_| vg.record(r)).collect();
+                    json!(["child_state_splice", "dynself", ["own"], r.below(4), r.below(2), ins])
+                }
+                2 => {
+                    let ins: Vec<Value> = (0..r.below(3)).map(|_| vg.sub_record(r)).collect();
+                    json!(["child_state", "dynself", ["own", seg_i(r), "sub"], ins])
+                }
+                3 => json!(["child_state", "dynself", ["own"], vg.records(r, 3)]),
+                _ => json!(["child_state", "dynself", ["own", seg_i(r)], vg.record(r)]),
+            }
+        }
         18 if f.type_flip => {
             let v = match r.below(6) {
                 0 => Value::Null,
@@ -1203,6 +1251,7 @@ pub fn catalogue_file(kind: &str) -> TFile {
         "mchild" => "<text>V:{{val}}</text>",
         "dyn" => "<text>D:{{p}}</text><block wx:for=\"{{items}}\" wx:key=\"k\"><slot sv=\"{{item}}\" si=\"{{index}}\"/></block>",
         "dynnk" => "<text>E:{{p}}</text><block wx:for=\"{{items}}\"><slot sv=\"{{item}}\" si=\"{{index}}\"/></block>",
+        "dynself" => "<text>S:{{own.length}}:{{p}}</text><block wx:for=\"{{own}}\" wx:key=\"k\"><slot sv=\"{{item}}\" si=\"{{index}}\" sl=\"{{item.sub}}\"/></block>",
         "mnest" => "<text>W:{{p.x}}:{{p.k}}</text><input model:value=\"{{p.x}}\"/><input model:value=\"{{p.y.z}}\"/>",
         "dynn" => "<text>N:{{p}}</text><view id=\"na\"><slot name=\"a\" sv=\"{{p}}\"/></view><view id=\"nb\"><slot name=\"b\" sv=\"{{p}}\"/></view><slot sv=\"{{p}}\"/>",
         "dynt" => "<template name=\"row\"><text>R:{{x}}:{{v}}</text><slot sv=\"{{x || v || p}}\" si=\"{{k}}\"/></template><text>T:{{p.k}}</text><template is=\"row\" data=\"{{...p}}\"/>",
@@ -1218,6 +1267,7 @@ pub fn catalogue_component(kind: &str) -> Value {
         "mchild" => json!({"is": "mchild", "path": "comp/mchild", "properties": {"val": {"type": "any", "value": null}, "nval": {"type": "any", "value": null}}}),
         "dyn" => json!({"is": "dyn", "path": "comp/dyn", "options": {"dynamicSlots": true}, "properties": {"items": {"type": "any", "value": []}, "p": {"type": "any", "value": null}}}),
         "dynnk" => json!({"is": "dynnk", "path": "comp/dynnk", "options": {"dynamicSlots": true}, "properties": {"items": {"type": "any", "value": []}, "p": {"type": "any", "value": null}}}),
+        "dynself" => json!({"is": "dynself", "path": "comp/dynself", "options": {"dynamicSlots": true}, "properties": {"p": {"type": "any", "value": null}}, "data": {"own": [{"k": 1, "v": "o1", "w": "p1", "sub": [{"k": 11, "v": "x1"}]}, {"k": 2, "v": "o2", "w": "p2", "sub": []}]}}),
         "mnest" => json!({"is": "mnest", "path": "comp/mnest", "properties": {"p": {"type": "any", "value": null}}}),
         "dynn" => json!({"is": "dynn", "path": "comp/dynn", "options": {"dynamicSlots": true}, "properties": {"p": {"type": "any", "value": null}}}),
         "dynt" => json!({"is": "dynt", "path": "comp/dynt", "options": {"dynamicSlots": true}, "properties": {"p": {"type": "any", "value": null}}}),
